@@ -1400,9 +1400,10 @@ impl<'a, 'b, W: Write> Serializer for &'a mut YamlSerializer<'b, W> {
     fn serialize_seq(self, _len: Option<usize>) -> Result<Self::SerializeSeq> {
         let flow = self.take_flow_for_seq();
         if flow {
-            self.write_scalar_prefix_if_anchor()?;
-            // Ensure a space after a preceding colon when this sequence is a mapping value.
+            // Ensure a space after a preceding colon when this sequence is a mapping value
+            // (before the anchor, if one is pending: `key: &a1 [..]`).
             self.write_space_if_pending()?;
+            self.write_scalar_prefix_if_anchor()?;
             if self.at_line_start {
                 self.write_indent(self.depth)?;
             }
@@ -1567,9 +1568,10 @@ impl<'a, 'b, W: Write> Serializer for &'a mut YamlSerializer<'b, W> {
     fn serialize_map(self, _len: Option<usize>) -> Result<Self::SerializeMap> {
         let flow = self.take_flow_for_map();
         if flow {
-            self.write_scalar_prefix_if_anchor()?;
-            // Ensure a space after a preceding colon when this mapping is a value.
+            // Ensure a space after a preceding colon when this mapping is a value
+            // (before the anchor, if one is pending: `key: &a1 {..}`).
             self.write_space_if_pending()?;
+            self.write_scalar_prefix_if_anchor()?;
             if self.at_line_start {
                 self.write_indent(self.depth)?;
             }
@@ -1995,6 +1997,7 @@ impl<'a, 'b, W: Write> SerializeTupleStruct for TupleSer<'a, 'b, W> {
                             if self.ser.at_line_start {
                                 self.ser.write_indent(self.ser.depth)?;
                             }
+                            self.ser.write_space_if_pending()?;
                             self.ser.out.write_str("null")?;
                             // Use shared end-of-scalar so pending inline comments (if any) are appended
                             self.ser.write_end_of_scalar()?;
